@@ -153,6 +153,16 @@ def check_canon(case):
                 break
             outs[tag] = out
         else:
+            # one canonicaliser object reused for a sequence of reactions (incl. the same reactant string again) behaves like fresh ones
+            shared = CanonRSMI(backend=backend)
+            seq = list(outs.items())
+            for tag, want_out in seq + seq[:3]:
+                vin = dict(the_variants(s, quick_cap=9))[tag]
+                got = shared.canonicalise(vin).canonical_rsmi
+                n += 1
+                if got != want_out:
+                    fails.append(Fail("canon_instance_reuse", f"{backend} {tag}: reused instance gives {got}", f"{want_out} (fresh instance)", key_extra=f"{backend}"))
+                    break
             asym = asym_exact if backend == "nauty" else asym_wl
             if asym and len(set(outs.values())) > 1:
                 vals = sorted(set(outs.values()))
